@@ -108,13 +108,24 @@ func run(c *lib.Ctx) error {
 		lsOf[a] = gls
 	}
 	assets = append(assets, gAssets...)
+	// the other MPDs of a bundled asset (thumbnail and subtitle adaptation sets behind the video one)
+	for _, a := range append([]*lib.TLAsset{}, assets...) {
+		if a.Path == "testpic_2s" && a.MPD == "Manifest.mpd" {
+			for _, name := range []string{"Manifest_thumbs.mpd", "Manifest_imsc1.mpd"} {
+				v := *a
+				v.MPD = name
+				lsOf[&v] = lsOf[a]
+				assets = append(assets, &v)
+			}
+		}
+	}
 	if c.Replay != "" {
 		in, err := lib.LoadReplayInput[c05in](c.Replay)
 		if err != nil {
 			return err
 		}
 		for _, a := range assets {
-			if a.Path != in.Asset {
+			if a.Path != in.Asset || (in.MPDURL != "" && !strings.Contains(in.MPDURL, "/"+a.MPD+"?")) {
 				continue
 			}
 			s := &sweep{ls: lsOf[a], a: a, cfg: in.Cfg, nows: []int64{in.NowMS}, avail: map[int64]int64{}}
